@@ -50,6 +50,33 @@ pub fn confirm(w: &Value) -> Value {
         }
         #[cfg(feature = "physics")]
         "c09_pad" => crate::phys::confirm_pad(w),
+        "name" => crate::tables::confirm_name(w),
+        "chunk" => {
+            let b = hex(w["bytes"].as_str().unwrap_or(""));
+            let real = guarded(|| det::padwing::Chunk::try_from(&b[..]));
+            let spec = chunk_ok(&b, crc32c::crc32c);
+            match real {
+                Err(p) => json!({"contradicts": true, "real": format!("panic: {p}"), "spec": format!("chunk_ok={spec}")}),
+                Ok(r) => {
+                    let fields = r.as_ref().map(|c| guarded(|| chunk_fields_ok(c, &b, crc32c::crc32c)).unwrap_or(false)).unwrap_or(true);
+                    json!({"contradicts": r.is_ok() != spec || !fields, "real": format!("{:?}", r.as_ref().map(|c| format!("Ok payload.len={}", c.payload().len())).map_err(|e| e.to_string())),
+                           "spec": format!("chunk_ok={spec} fields_ok={fields} (real CRC-32C)")})
+                }
+            }
+        }
+        "pwb" => {
+            let b = hex(w["bytes"].as_str().unwrap_or(""));
+            let real = guarded(|| det::padwing::PwbV2Packet::try_from(&b[..]));
+            let spec = pwb_ok(&b);
+            match real {
+                Err(p) => json!({"contradicts": true, "real": format!("panic: {p}"), "spec": format!("pwb_ok={spec}")}),
+                Ok(r) => {
+                    let fields = r.as_ref().map(|p| guarded(|| pwb_fields_ok(p, &b)).unwrap_or(false)).unwrap_or(true);
+                    json!({"contradicts": r.is_ok() != spec || !fields, "real": format!("{:?}", r.as_ref().map(|p| format!("Ok channels_sent={}", p.channels_sent().len())).map_err(|e| e.to_string())),
+                           "spec": format!("pwb_ok={spec} fields_ok={fields}")})
+                }
+            }
+        }
         "fifo" => native::confirm_fifo(w),
         "chunks" => native::confirm_chunks(w),
         _ => json!({"error": format!("unknown op {op}")}),
@@ -61,6 +88,11 @@ pub fn run(name: &str, _seed: u64, tier: &str) -> Value {
         "c07_stream" => native::c07_stream(tier),
         "c04_enum" => native::c04_enum(tier),
         "c08_tables" => native::c08_tables(tier),
+        "c02_table" => crate::tables::c02_table(tier),
+        "c03_table" => crate::tables::c03_table(tier),
+        "c05_table" => crate::tables::c05_table(tier),
+        "c06_table" => crate::tables::c06_table(tier),
+        "c08_names" => crate::tables::c08_names(tier),
         _ => json!({"error": format!("unknown check {name}")}),
     }
 }
